@@ -737,6 +737,12 @@ impl Translator {
                         let f = self.pure_closure(&mc.args[0], cx, &[Sort::Other], "find_map")?;
                         Ok(Some(format!("(Iter.findMap {r} {f})")))
                     }
+                    "all" => {
+                        arity(1)?;
+                        let r = self.expr(&mc.receiver, cx)?;
+                        let f = self.pure_closure(&mc.args[0], cx, &[Sort::Other], "all")?;
+                        Ok(Some(format!("(Iter.all {r} {f})")))
+                    }
                     _ => Ok(None),
                 }
             }
